@@ -711,3 +711,28 @@ theorem tra_taskProgram_own (Pj : Proj) (svs : List SuiteView) (w : Nat) (t : Ta
   · tra_using tra_teardownProgram (L := .suiteTeardown path) _ _ _ _ _ _ (by simp [opFor]) (by simp [opFor])
 
 end LccModel.Run
+
+/-! ### A small concrete project for non-vacuity examples -/
+namespace LccModel.Run.Sample
+open LccModel.Report LccModel.Session LccModel.Run
+
+def fxA : Fx := { name := "fa", func := "fa", scope := .test, perThread := false, params := [], gen := true,
+                  setup := [.log .info], teardown := [.raise .exc] }
+/-- an enabled test: a step, a failed check, a thread logging an error, then `AbortTest` -/
+def tA : TestSpec := { name := "t", rank := 0, disabled := false, disabledReason := false, deps := [], fixtures := ["fa"],
+                       script := [.step "x", .check false, .thread [.log .error], .raise .abortTest] }
+/-- a disabled test -/
+def tB : TestSpec := { name := "u", rank := 1, disabled := true, disabledReason := true, deps := [], fixtures := [],
+                       script := [.log .info] }
+def sA : SuiteSpec :=
+  .mk "s" 0 false (some ([], [.log .info])) (some [.log .info]) (some [.log .info]) (some [.raise .exc]) [] [tA, tB] []
+def PA : Proj := { fixtures := [fxA], suites := [sA], nbThreads := 1, forceDisabled := false, stopOnFailure := false }
+def svA : SuiteView := { path := ["s"], spec := sA, inhDisabled := false }
+
+theorem hsvA : (allSuites PA).find? (fun sv => sv.path == (["s", "t"] : Path).dropLast) = some svA := by rfl
+theorem htA : svA.spec.tests.find? (fun x => x.name == (["s", "t"] : Path).getLast?.getD "") = some tA := by rfl
+theorem hsvB : (allSuites PA).find? (fun sv => sv.path == (["s", "u"] : Path).dropLast) = some svA := by rfl
+theorem htB : svA.spec.tests.find? (fun x => x.name == (["s", "u"] : Path).getLast?.getD "") = some tB := by rfl
+theorem hsvS : (allSuites PA).find? (fun sv => sv.path == (["s"] : Path)) = some svA := by rfl
+
+end LccModel.Run.Sample
